@@ -50,6 +50,9 @@ FIRST_MISSED = {
     "C10-6": "no check reported it -> GBNHS-3: the restart shortcut is entered only through a type test for SYNACK or DATA",
     "C15-6": "own property silent (reported by C02/C07 for side reasons) -> DUPLEX: Decrypt on the read path returns a fresh buffer; shared by C15",
     "C11-5": "no check reported it -> PUBLISH/SIDFRESH: after split() no return is reachable before SetRemote on the version >= 2 paths",
+    "C17-5": "no check reported it -> SIDDIR: SID() returns only a hash computed in this invocation (no remembered value)",
+    "C06-5": "own property silent (reported by C18 LOCKORD; third independent rediscovery of this inversion) -> C06 imports C18 and C09",
+    "C06-6": "own property silent (reported by C01/C09 SIZE) -> C06 imports C18 and C09",
     "C06-3": "no check reported it -> RATELIMIT: once lastResend is refreshed the packets are transmitted",
 }
 
